@@ -19,7 +19,7 @@ variable {α : Type} [Add α] [Sub α] [Mul α] [Div α] [Neg α] [LT α] [LE α
 /-- `solver_t::done`, as generated from the source: stops iff `converged || !(iter_ok && valid)`; `converged` wins over
     `failed`; a call that does not stop leaves the status alone and certifies a valid state and an ok step; it never
     touches the point, the value or the gradient. -/
-theorem done_spec' (env : Env α) (s : State α) (iterOk conv : Bool) :
+theorem done_decision (env : Env α) (s : State α) (iterOk conv : Bool) :
     ((done env s iterOk conv).2 = true ↔ (conv = true ∨ ¬ (iterOk = true ∧ valid env s = true))) ∧
     ((done env s iterOk conv).2 = true →
       (done env s iterOk conv).1.status = (if conv then Status.converged else Status.failed)) ∧
